@@ -15,6 +15,7 @@ def joinOr (sep : String) (xs : List String) : String :=
 structure FileAcc where
   kind : String := "bad"
   kinds : List String := []
+  nparts : Nat := 0              -- fragments decoded (0: a body without any `moof`)
   pts : List PartTrack := []     -- reversed
   tis : List TSItem := []        -- reversed
 
@@ -101,7 +102,8 @@ def parseLine (c : CaseAcc) (first : Bool) (line : String) : Option CaseAcc :=
     let st ← c.streams[s]?
     if i ≠ st.files.length then none
     let ks := if kinds = "-" then [] else kinds.splitOn ","
-    some { c with streams := updateAt c.streams s (fun st => { st with files := st.files ++ [{ kind := kind, kinds := ks }] }),
+    let np ← kvNat ws "parts"
+    some { c with streams := updateAt c.streams s (fun st => { st with files := st.files ++ [{ kind := kind, kinds := ks, nparts := np }] }),
                   upanic := c.upanic || kind = "upanic" }
   | "pt" :: ws => do
     if first then none
@@ -138,7 +140,8 @@ def parseCase (lines : List String) : Option CaseAcc := do
 
 def toPayload (f : FileAcc) : Payload :=
   match f.kind with
-  | "parts" => .parts [f.pts.reverse]         -- only the container order of the part-tracks matters (`parts.flatten`)
+  -- only the container order of the part-tracks (`parts.flatten`) and whether there is any fragment at all matter
+  | "parts" => .parts (if f.nparts = 0 then [] else f.pts.reverse :: List.replicate (f.nparts - 1) [])
   | "ts" => .ts { kinds := f.kinds, items := f.tis.reverse }
   | _ => .undecodable
 
